@@ -258,7 +258,10 @@ def gen_field_spec(rnd, solve_time, field_units, kinds=("zero", "const", "ramp",
     if kind == "zero":
         return {"kind": "zero"}
     if kind == "const":
-        return {"kind": rnd.choice(["const", "const_param"]), "B": B}
+        k2 = rnd.choice(["const", "const_param", "plain"])
+        if k2 == "plain":
+            return {"kind": "plain", "shape": rnd.choice(["ok3", "ok2"]), "B": B}
+        return {"kind": k2, "B": B}
     if kind == "ramp":
         return {"kind": "ramp", "B": B, "tmin": r3(rnd.choice([0.0, 0.2]) * solve_time), "tmax": r3(rnd.choice([0.6, 1.0, 3.0]) * solve_time), "initial": rnd.choice([0.0, 0.0, 1.0, -0.5]), "final": rnd.choice([1.0, 0.0, 2.0])}
     if kind == "pw":
